@@ -447,8 +447,10 @@ class Transaction:
             if rdataset.rdclass != self.manager.get_class():
                 raise ValueError(f"{method} has objects of wrong RdataClass")
             if rdataset.rdtype == dns.rdatatype.SOA:
-                _, _, origin = self._origin_information()
-                if name != origin:
+                absolute, _, origin = self._origin_information()
+                # The apex may be given by its absolute name or by the empty
+                # (relative) name, whatever the zone's relativization.
+                if name != origin and name != absolute and name != dns.name.empty:
                     raise ValueError(f"{method} has non-origin SOA")
             self._raise_if_not_empty(method, args)
             if not replace:
